@@ -325,7 +325,7 @@ func TestVerifC35TempFiles(t *testing.T) {
 		cli.Close()
 		select {
 		case <-done:
-		case <-time.After(3 * time.Second):
+		case <-time.After(15 * time.Second):
 			problems = append(problems, "ServeConn did not return")
 		}
 		// after the connection is closed no temporary file may remain
